@@ -13,6 +13,7 @@
 package main
 
 import (
+	"sort"
 	"encoding/json"
 	"fmt"
 	"os"
@@ -209,6 +210,17 @@ func checkFunction(src string, u lib.OptInput, o *tengo.CompiledFunction) {
 		got = ans[:i] // drop the "appended" flag
 	}
 	if got != want {
+		// same instruction bytes but another source map: the kept instructions are known (they give these very
+		// bytes), so the expected map is determined by the input map — a wrong entry is a wrong reported error position
+		gf, wf := strings.Fields(got), strings.Fields(want)
+		if len(gf) >= 2 && len(wf) >= 2 && gf[0] == "ok" && gf[1] == wf[1] {
+			if bad := srcMapMismatch(key, du, u, o); bad != "" {
+				res.Violate(lib.Violation{Signature: "source-map-of-kept-instruction-differs", Stream: "srcmap",
+					Input: replayInput{Source: src, Insts: key}, Observed: bad,
+					Expected: "every kept instruction keeps its source position; the appended return carries the function's position",
+					Oracle:   "input source map from the optimizer hook; kept offsets = those whose re-encoding gives exactly the emitted bytes"})
+			}
+		}
 		res.Disagree(lib.Disagreement{Stream: "opt", Input: replayInput{Source: src, Insts: key}, Model: ans, Impl: want})
 		return
 	}
@@ -237,6 +249,50 @@ func checkFunction(src string, u lib.OptInput, o *tengo.CompiledFunction) {
 		}
 	}
 	res.Count("reach", key, removed)
+}
+
+// srcMapMismatch compares the emitted source map with the one determined by the input map and the kept offsets.
+func srcMapMismatch(key string, du []lib.DInstr, u lib.OptInput, o *tengo.CompiledFunction) string {
+	kans, err := drv.Ask(lib.L("keptpos", key))
+	if err != nil {
+		fatal(err)
+	}
+	res.ModelLines++
+	var keptPos []int
+	if v, err := lib.ParseSexp(strings.TrimPrefix(kans, "ok ")); err == nil {
+		if l, ok := v.([]interface{}); ok {
+			for _, x := range l {
+				var n int
+				fmt.Sscan(x.(string), &n)
+				keptPos = append(keptPos, n)
+			}
+		}
+	}
+	sort.Ints(keptPos)
+	do, derr := lib.Decode(o.Instructions)
+	if derr != nil || !(len(do) == len(keptPos) || len(do) == len(keptPos)+1) {
+		return ""
+	}
+	want := map[int]parser.Pos{}
+	for j, p := range keptPos {
+		if sp, ok := u.SrcMap[p]; ok {
+			want[do[j].Pos] = sp
+		}
+	}
+	if len(do) == len(keptPos)+1 {
+		want[do[len(do)-1].Pos] = u.Node.Pos()
+	}
+	for q, sp := range o.SourceMap {
+		if w, ok := want[q]; !ok || w != sp {
+			return fmt.Sprintf("output offset %d maps to source position %d, expected %d (present=%v)", q, sp, w, ok)
+		}
+	}
+	for q, w := range want {
+		if sp, ok := o.SourceMap[q]; !ok || sp != w {
+			return fmt.Sprintf("output offset %d: expected source position %d, found %d (present=%v)", q, w, sp, ok)
+		}
+	}
+	return ""
 }
 
 // reachable computes the offsets reachable from 0 in the CFG of a function.
@@ -511,6 +567,22 @@ func main() {
 	// corpus first
 	for _, src := range corpus {
 		checkProgram(src)
+	}
+	// functions longer than 64 KiB: jump operands above 65535, with and without dead code (in main and in a literal)
+	{
+		var body strings.Builder
+		for i := 0; i < 11500; i++ {
+			body.WriteString("x = 1\n")
+		}
+		b := body.String()
+		for _, src := range []string{
+			"x := 0\nc := false\nif c {\n" + b + "}\ny := 2\n",
+			"x := 0\nf := func(c) {\nif c {\n" + b + "}\nreturn 7279\n}\ny := f(false)\nz := f(true)\n",
+			"x := 0\nf := func(c) {\nif c {\nreturn 1\nx = 5\n}\nfor i := 0; i < 2; i++ {\nif i == 5 {\n" + b + "}\n}\nreturn 7\nx = 9\n}\ny := f(false)\n",
+		} {
+			res.Dist("large-function-programs")
+			checkProgram(src)
+		}
 	}
 	rng := lib.NewRNG(f.Seed)
 	n := f.Scale(1500, 60000)
